@@ -13,7 +13,8 @@ RULE = (
     "every MiniPy program up to the size bound x inputs {0,1,2} x every overridable focus (parameter, "
     "every own-scope bound name whatever its binding form, attribute store o.at, return value) x a "
     "context variable x handler stacks in every listed activation order drawn from {overriding probe, "
-    "plain probe, Overlay.tweaking, Overlay.rewriting} x override function {constant, function of the "
+    "plain probe, Overlay.tweaking, Overlay.rewriting, overrides derived from one reused Overlay instance "
+    "after an earlier one derived from it has ended} x override function {constant, function of the "
     "tentative value, conditional (declines on even values), function of the captured context}; "
     "oracle = the substituted twin (same program, SITE returns what the most recently activated "
     "non-declining override returns): result, effect log, argument state must be equal and plain "
@@ -67,6 +68,10 @@ QUICK_B = [
     [("tweak", "const")], [("tweak2", "const")], [("rewrite", "plus")], [("rewrite", "ctx")],
     [("tweak", "const"), ("rewrite", "plus")], [("rewrite", "plus"), ("tweak", "const")],
     [("tap", None), ("rewrite", "plus")],
+    # one Overlay *instance* reused: an override derived from it (base.tweaking) has ended before the
+    # run; afterwards the instance itself, or another override derived from it, is entered
+    [("ghost", None), ("ibase", None), ("tap", None)],
+    [("ghost", None), ("itweak", "const")],
 ]
 KINDS_A = [("oprobe", "const"), ("oprobe", "plus"), ("oprobe", "cond"), ("oprobe", "ctx"), ("probe", None),
            ("tweak", "const"), ("rewrite", "plus"), ("rewrite", "ctx")]
@@ -89,6 +94,8 @@ def stacks(tier):
         [("oprobe", "cond"), ("tweak", "const"), ("oprobe", "cond")],
     ]
     out += [("A", t) for t in triples]
+    out += [("B", [("ghost", None), ("ibase", None), ("tap", None)]), ("B", [("ghost", None), ("itweak", "const")]),
+            ("B", [("ghost", None), ("itweak", "const"), ("rewrite", "plus")]), ("B", [("ghost", None), ("rewrite", "plus"), ("ibase", None)])]
     kb = [("tweak", "const"), ("tweak2", "const"), ("rewrite", "plus"), ("rewrite", "ctx"), ("tap", None)]
     for n in (1, 2):
         for s in itertools.product(kb, repeat=n):
@@ -99,7 +106,7 @@ def stacks(tier):
 
 SMALL_CTL = frozenset({"assign", "aug", "return", "if-else", "for-else", "for", "try-except", "try-finally", "with", "break", "raise"})
 CTL_STACKS = [("A", [("oprobe", "const")]), ("A", [("oprobe", "cond")]), ("A", [("oprobe", "plus"), ("probe", None)]),
-              ("B", [("tweak", "const")]), ("B", [("rewrite", "plus")])]
+              ("B", [("tweak", "const")]), ("B", [("rewrite", "plus")]), ("B", [("ghost", None), ("ibase", None), ("tap", None)])]
 
 
 def program_sets(tier):
@@ -202,6 +209,7 @@ def instrumented(prog, info, v, w, route, stack, x, driver, part):
         env = {"f": fn}
     plain = []
     active = []
+    base = Overlay()  # the reused instance of the ghost / ibase / itweak kinds
 
     def wrap(o):
         def call(ev):
@@ -238,6 +246,16 @@ def instrumented(prog, info, v, w, route, stack, x, driver, part):
                 # (tooled route only: the condition needs x to be instrumented)
                 never = select(text.replace("f(", "f(x=-12345, ", 1) if "f(" in text else text.replace("f >", "f(x=-12345) >", 1), env=env)
                 ol = Overlay.tweaking({select(text, env=env): OVR[o]({}, v, w), never: 555})
+                ol.__enter__()
+                active.append(ol)
+            elif kind == "ghost":
+                with base.tweaking({select(text, env=env): 31337}):
+                    pass
+            elif kind == "ibase":
+                base.__enter__()
+                active.append(base)
+            elif kind == "itweak":
+                ol = base.tweaking({select(text, env=env): OVR[o]({}, v, w)})
                 ol.__enter__()
                 active.append(ol)
             elif kind == "rewrite":
